@@ -41,8 +41,9 @@ type normalizer struct {
 	notes []string
 	// suffix given to the locals of the callee inlined last (normalize2.go)
 	lastSfx      string
-	parserMode   bool            // passes applied to the parser: helpers with loops stay calls
-	addedImports map[string]bool // file\x00path already inserted by ensureImports
+	parserMode   bool                  // passes applied to the parser: helpers with loops stay calls
+	addrBound    map[types.Object]bool // parameters bound to &local: the local in selectors, (&local) elsewhere
+	addedImports map[string]bool       // file\x00path already inserted by ensureImports
 }
 
 func (n *normalizer) file(pos token.Pos) (string, int) {
